@@ -1,4 +1,491 @@
 import OtelVerif.Model.C19
-/-! C19 property theorems (stub) -/
+import OtelVerif.Model.C19Exp
+import OtelVerif.Props.C03
+/-!
+# C19 — self-telemetry item counters balance with what actually happened
+
+Receiver, scraper and processor clauses (the exporter clause is appended at the end of the namespace).
+`Gen.ScrapeSignal` is regenerated from `scraper/scraperhelper/controller.go` and
+`receiver/receiverhelper/obsreport.go` on every run, so `C19_scraper_logs`, `C19_scraper_metrics`,
+`C19_recordMetrics_table` and `C19_endOp_signals` are re-checked against what the code says now.
+-/
 namespace OtelVerif.C19
+open OtelVerif.Gen
+
+/-! ## ties over the regenerated data -/
+
+/-- every case of the `recordMetrics` switch selects the accepted and the refused instrument of its own
+signal, and every signal has a case -/
+theorem C19_recordMetrics_table :
+    (∀ r ∈ ScrapeSignal.recordTable, r.2.1 = r.1 ∧ r.2.2 = r.1) ∧
+    (∀ s ∈ Signal.all, s.code ∈ ScrapeSignal.recordTable.map (·.1)) := by decide
+
+/-- `End<X>Op` hands `pipeline.Signal<X>` to `endOp` -/
+theorem C19_endOp_signals : ∀ s ∈ Signal.all, ScrapeSignal.endOpSignal.lookup s.code = some s.code := by decide
+
+/-- the codes emitted for the scrape functions denote signals (the fallback of `Ctrl.used` is never taken) -/
+theorem C19_scrape_codes_valid : ∀ k ∈ [Ctrl.metrics, Ctrl.logs], (Signal.ofCode? k.usedCode).isSome = true := by decide
+
+/-! ## receiver -/
+
+theorem add_same (f : Signal → Nat) (s : Signal) (n : Nat) : add f s n s = f s + n := by simp [add]
+
+theorem add_other (f : Signal → Nat) (s t : Signal) (n : Nat) (h : t ≠ s) : add f s n t = f t := by simp [add, h]
+
+/-- **per operation, at any point of any history** (`c` = counters so far): the offered items go to
+accepted when the downstream result is success and to refused when it is an error, under the
+operation's own signal, and the counters of the other signals do not move -/
+theorem C19_receiver_op (c : Recv) (op : RecvOp) : RecvStepOK c (c.endOp op) op := by
+  refine ⟨?_, ?_, ?_⟩
+  · intro h; simp [Recv.endOp, add, numAccepted, numRefused, h]
+  · intro h; simp [Recv.endOp, add, numAccepted, numRefused, h]
+  · intro t ht; simp [Recv.endOp, add, ht]
+
+/-- which of the two moved tells the downstream result (for a non-empty payload; with `n = 0` neither moves) -/
+theorem C19_receiver_op_iff (c : Recv) (op : RecvOp) (hn : 0 < op.n) :
+    (op.err = false ↔ ((c.endOp op).refused op.sig = c.refused op.sig ∧ (c.endOp op).accepted op.sig = c.accepted op.sig + op.n)) ∧
+    (op.err = true ↔ ((c.endOp op).accepted op.sig = c.accepted op.sig ∧ (c.endOp op).refused op.sig = c.refused op.sig + op.n)) := by
+  cases h : op.err <;> simp [Recv.endOp, add, numAccepted, numRefused, h] <;> omega
+
+/-- the hypothesis `0 < op.n` is needed: a failed operation that offered nothing moves neither counter, so
+"refused unchanged and accepted grown by n" holds for it as well -/
+example : let c : Recv := {}; let op : RecvOp := ⟨.logs, 0, true⟩
+    (c.endOp op).refused op.sig = c.refused op.sig ∧ (c.endOp op).accepted op.sig = c.accepted op.sig + op.n := by decide
+
+example : let c : Recv := Recv.run {} [⟨.metrics, 4, false⟩]; let op : RecvOp := ⟨.metrics, 3, true⟩
+    0 < op.n ∧ (c.endOp op).accepted .metrics = 4 ∧ (c.endOp op).refused .metrics = 3 := by decide
+
+theorem Recv.run_cons (c : Recv) (op : RecvOp) (ops : List RecvOp) : c.run (op :: ops) = (c.endOp op).run ops := rfl
+
+theorem run_accepted (c : Recv) (ops : List RecvOp) (s : Signal) : (c.run ops).accepted s = c.accepted s + offeredOk s ops := by
+  induction ops generalizing c with
+  | nil => simp [Recv.run, offeredOk, sumBy]
+  | cons op ops ih =>
+    rw [Recv.run_cons, ih]
+    by_cases h : s = op.sig
+    · subst h; simp [Recv.endOp, add, offeredOk, sumBy]; omega
+    · have h' : ¬ op.sig = s := fun e => h e.symm
+      simp [Recv.endOp, add, offeredOk, sumBy, h, h']
+
+theorem run_refused (c : Recv) (ops : List RecvOp) (s : Signal) : (c.run ops).refused s = c.refused s + offeredErr s ops := by
+  induction ops generalizing c with
+  | nil => simp [Recv.run, offeredErr, sumBy]
+  | cons op ops ih =>
+    rw [Recv.run_cons, ih]
+    by_cases h : s = op.sig
+    · subst h; simp [Recv.endOp, add, offeredErr, sumBy]; omega
+    · have h' : ¬ op.sig = s := fun e => h e.symm
+      simp [Recv.endOp, add, offeredErr, sumBy, h, h']
+
+theorem offered_split (s : Signal) (ops : List RecvOp) : offeredOk s ops + offeredErr s ops = offered s ops := by
+  induction ops with
+  | nil => rfl
+  | cons op ops ih =>
+    have e1 : offeredOk s (op :: ops) = (if op.sig = s then numAccepted op.n op.err else 0) + offeredOk s ops := rfl
+    have e2 : offeredErr s (op :: ops) = (if op.sig = s then numRefused op.n op.err else 0) + offeredErr s ops := rfl
+    have e3 : offered s (op :: ops) = (if op.sig = s then op.n else 0) + offered s ops := rfl
+    rw [e1, e2, e3]
+    by_cases h : op.sig = s
+    · cases he : op.err <;> simp [h, numAccepted, numRefused] <;> omega
+    · simp [h]; omega
+
+/-- **every history of receive operations over all signals**: for each signal, accepted = items offered
+by its successful operations, refused = items offered by its failed operations, and so
+accepted + refused = items offered to that signal — operations of the other signals contribute nothing -/
+theorem C19_receiver (ops : List RecvOp) (s : Signal) :
+    (Recv.run {} ops).accepted s = offeredOk s ops ∧
+    (Recv.run {} ops).refused s = offeredErr s ops ∧
+    (Recv.run {} ops).accepted s + (Recv.run {} ops).refused s = offered s ops := by
+  have ha := run_accepted {} ops s
+  have hr := run_refused {} ops s
+  have hs := offered_split s ops
+  simp only [Nat.zero_add] at ha hr
+  exact ⟨ha, hr, by omega⟩
+
+/-- every step of every history satisfies the per-operation clause -/
+theorem C19_receiver_trace (c : Recv) (ops : List RecvOp) : RecvTraceOK c (c.trace ops) := by
+  induction ops generalizing c with
+  | nil => trivial
+  | cons op ops ih => exact ⟨C19_receiver_op c op, ih _⟩
+
+example : (Recv.run {} [⟨.traces, 5, false⟩, ⟨.logs, 3, true⟩, ⟨.traces, 2, true⟩, ⟨.metrics, 0, false⟩]).accepted .traces = 5 ∧
+    (Recv.run {} [⟨.traces, 5, false⟩, ⟨.logs, 3, true⟩, ⟨.traces, 2, true⟩, ⟨.metrics, 0, false⟩]).refused .traces = 2 ∧
+    (Recv.run {} [⟨.traces, 5, false⟩, ⟨.logs, 3, true⟩, ⟨.traces, 2, true⟩, ⟨.metrics, 0, false⟩]).refused .logs = 3 ∧
+    offered .traces [⟨.traces, 5, false⟩, ⟨.logs, 3, true⟩, ⟨.traces, 2, true⟩, ⟨.metrics, 0, false⟩] = 7 := by decide
+
+/-! ### search oracle on implementation observations -/
+
+theorem recvForeign_none {before after : Recv} {op : RecvOp} (h : recvForeign before after op = none) (t : Signal) (ht : t ≠ op.sig) :
+    after.accepted t = before.accepted t ∧ after.refused t = before.refused t := by
+  have := List.find?_eq_none.mp h t (Signal.mem_all t)
+  simpa [ht] using this
+
+theorem recvStepB_sound {before after : Recv} {op : RecvOp} (h : recvStepB before after op = true) : RecvStepOK before after op := by
+  simp only [recvStepB, Bool.and_eq_true, Option.isNone_iff_eq_none] at h
+  obtain ⟨hown, hfor⟩ := h
+  refine ⟨?_, ?_, fun t ht => recvForeign_none hfor t ht⟩
+  · intro he; simpa [recvOwnB, he] using hown
+  · intro he; simpa [recvOwnB, he] using hown
+
+/-- whatever observed counter trace `recvCheck` accepts satisfies the per-operation clause at every step -/
+theorem C19_recv_check_sound (before : Recv) (tr : List (RecvOp × Recv)) (h : recvCheck before tr = true) : RecvTraceOK before tr := by
+  induction tr generalizing before with
+  | nil => trivial
+  | cons p rest ih =>
+    obtain ⟨op, after⟩ := p
+    simp only [recvCheck, Bool.and_eq_true] at h
+    exact ⟨recvStepB_sound h.1, ih after h.2⟩
+
+def lastSnap (before : Recv) : List (RecvOp × Recv) → Recv
+  | [] => before
+  | (_, after) :: rest => lastSnap after rest
+
+/-- … and therefore balances: on any observed trace that satisfies the per-operation clause, the final
+accepted + refused of every signal is the starting value plus the items offered to that signal -/
+theorem C19_recv_trace_balance (before : Recv) (tr : List (RecvOp × Recv)) (h : RecvTraceOK before tr) (s : Signal) :
+    (lastSnap before tr).accepted s + (lastSnap before tr).refused s =
+      before.accepted s + before.refused s + offered s (tr.map (·.1)) := by
+  induction tr generalizing before with
+  | nil => simp [lastSnap, offered, sumBy]
+  | cons p rest ih =>
+    obtain ⟨op, after⟩ := p
+    obtain ⟨⟨h1, h2, h3⟩, hrest⟩ := h
+    have := ih after hrest
+    simp only [lastSnap, List.map_cons, offered, sumBy] at this ⊢
+    rw [this]
+    by_cases hs : s = op.sig
+    · subst hs
+      cases he : op.err
+      · obtain ⟨a, r⟩ := h1 he; simp; omega
+      · obtain ⟨a, r⟩ := h2 he; simp; omega
+    · obtain ⟨a, r⟩ := h3 s hs
+      have hs' : ¬ op.sig = s := fun e => hs e.symm
+      simp [hs']; omega
+
+/-- the oracle is not trivially true: counting refused items as accepted is rejected, so is touching a foreign signal -/
+example : recvCheck {} [(⟨.logs, 3, true⟩, { accepted := add (fun _ => 0) .logs 3 })] = false := by decide
+example : recvCheck {} [(⟨.logs, 3, false⟩, { accepted := add (fun _ => 0) .metrics 3 })] = false := by decide
+example : recvCheck {} (Recv.trace {} [⟨.logs, 3, true⟩, ⟨.traces, 1, false⟩]) = true := by decide
+
+/-! ## scraper controller -/
+
+theorem Scr.run_cons (sig : Signal) (c : Scr) (t : Tick) (ts : List Tick) : Scr.run sig c (t :: ts) = Scr.run sig (c.scrape sig t) ts := rfl
+
+theorem scr_recv (sig : Signal) (c : Scr) (ts : List Tick) : (Scr.run sig c ts).recv = c.recv.run (tickOps sig ts) := by
+  induction ts generalizing c with
+  | nil => rfl
+  | cons t ts ih => rw [Scr.run_cons, ih]; rfl
+
+theorem sumBy_append (l₁ l₂ : List Nat) : sumBy id (l₁ ++ l₂) = sumBy id l₁ + sumBy id l₂ := by
+  induction l₁ with
+  | nil => simp [sumBy]
+  | cons x xs ih => simp [sumBy, ih]; omega
+
+theorem scr_sink (sig : Signal) (c : Scr) (ts : List Tick) : sumBy id (Scr.run sig c ts).sink = sumBy id c.sink + sumBy Tick.count ts := by
+  induction ts generalizing c with
+  | nil => simp [Scr.run, sumBy]
+  | cons t ts ih => rw [Scr.run_cons, ih]; simp [Scr.scrape, sumBy_append, sumBy]; omega
+
+theorem offered_tickOps (sig : Signal) (ts : List Tick) : offered sig (tickOps sig ts) = sumBy Tick.count ts := by
+  induction ts with
+  | nil => rfl
+  | cons t ts ih => simp only [tickOps, List.map_cons, offered, sumBy] at *; simp [ih]
+
+theorem scr_obsTrace_ok (sig : Signal) (c : Scr) (ts : List Tick) : RecvTraceOK c.recv (Scr.obsTrace sig sig c ts) := by
+  induction ts generalizing c with
+  | nil => trivial
+  | cons t ts ih => exact ⟨C19_receiver_op c.recv ⟨sig, t.count, t.sinkErr⟩, ih _⟩
+
+/-- a scrape function that reports through the receiver operation of the controller's own signal
+satisfies the scraper clause — every history, any number of scrapers, any mix of ok / partial / failed
+scrapers and next-consumer results -/
+theorem C19_scraper_own (s : Signal) : ScraperClause s s := by
+  intro ts
+  refine ⟨scr_obsTrace_ok s {} ts, ?_⟩
+  have h1 := (C19_receiver (tickOps s ts) s).2.2
+  rw [scr_recv, scr_sink, h1, offered_tickOps]
+  simp [sumBy]
+
+/-- a scrape function that reports through the operation of a **different** signal violates it: one
+scrape, one scraper returning one item -/
+def scraperWitness : List Tick := [⟨[.ok 1 1], false⟩]
+
+theorem C19_scraper_foreign_fails (own used : Signal) (h : used ≠ own) : ¬ ScraperClause own used := by
+  intro hc
+  have := (hc scraperWitness).2
+  have h' : ¬ own = used := fun e => h e.symm
+  simp [scraperWitness, Scr.run, Scr.scrape, Recv.endOp, add, numAccepted, numRefused, Tick.count, sumBy,
+    ScrapeRes.kept, h'] at this
+
+/-- full statement for the logs scraper controller, as a function of the signal whose receiver operation
+`scrapeLogs` ends: log records handed to the next consumer are recorded under the **log record** counters -/
+def C19_scraper_logs_full (used : Signal) : Prop := ScraperClause .logs used
+
+/-- the pinned code (`scrapeLogs` calls `EndMetricsOp`) violates it: the scraped log records land in
+`otelcol_receiver_accepted_metric_points` (witness `scraperWitness`, replayed on the real controller by
+the harness: `viol sig=C19/scraper/logs-counted-as-metric-points`) -/
+theorem C19_scraper_logs_full_fails : ¬ C19_scraper_logs_full .metrics :=
+  C19_scraper_foreign_fails .logs .metrics (by decide)
+
+theorem C19_scraper_logs_repaired : C19_scraper_logs_full .logs := C19_scraper_own .logs
+
+/-- **the logs scraper controller of the current source** (`scrapeLogsSignal` is computed from the
+regenerated `Gen.ScrapeSignal.scrapeLogsEndSig`): checks on the repaired tree, does not build on the pinned one -/
+theorem C19_scraper_logs : C19_scraper_logs_full scrapeLogsSignal := by
+  have h : scrapeLogsSignal = .logs := by decide
+  rw [h]; exact C19_scraper_logs_repaired
+
+/-- **the metrics scraper controller of the current source** -/
+theorem C19_scraper_metrics : ScraperClause .metrics scrapeMetricsSignal := by
+  have h : scrapeMetricsSignal = .metrics := by decide
+  rw [h]; exact C19_scraper_own .metrics
+
+/-- per-scraper counters (`wrapObsMetrics` / `wrapObsLogs`): scraper `i`'s scraped counter is the sum of the
+units of its ok and partial results, its errored counter the sum of the `Failed` of its partial errors;
+a failed scrape adds nothing to either -/
+theorem C19_scraper_per_scraper (sig : Signal) (ts : List Tick) (i : Nat) :
+    (Scr.run sig {} ts).scraped i = sumBy (fun t => resAt t.results ScrapeRes.scraped i) ts ∧
+    (Scr.run sig {} ts).errored i = sumBy (fun t => resAt t.results ScrapeRes.errored i) ts := by
+  have gen : ∀ c : Scr, (Scr.run sig c ts).scraped i = c.scraped i + sumBy (fun t => resAt t.results ScrapeRes.scraped i) ts ∧
+      (Scr.run sig c ts).errored i = c.errored i + sumBy (fun t => resAt t.results ScrapeRes.errored i) ts := by
+    induction ts with
+    | nil => intro c; simp [Scr.run, sumBy]
+    | cons t ts ih =>
+      intro c
+      rw [Scr.run_cons]
+      obtain ⟨h1, h2⟩ := ih (c.scrape sig t)
+      rw [h1, h2]
+      simp [Scr.scrape, sumBy]; omega
+  simpa using gen {}
+
+/-- non-vacuity: two scrapes of three scrapers (ok, partial, failed); the failed scraper's 9 items are dropped -/
+example : let c := Scr.run .logs {} [⟨[.ok 3 3, .partialErr 2 2 4, .fail 9], false⟩, ⟨[.fail 1, .ok 1 1, .ok 0 0], true⟩]
+    c.recv.accepted .logs = 5 ∧ c.recv.refused .logs = 1 ∧ c.recv.accepted .metrics = 0 ∧ c.sink = [5, 1] ∧
+    c.scraped 1 = 3 ∧ c.errored 1 = 4 ∧ c.scraped 2 = 0 := by decide
+
+/-- the pinned behaviour, concretely: one log record scraped, counted as an accepted metric point -/
+example : (Scr.run .metrics {} scraperWitness).recv.accepted .metrics = 1 ∧ (Scr.run .metrics {} scraperWitness).recv.accepted .logs = 0 ∧
+    (Scr.run .metrics {} scraperWitness).sink = [1] := by decide
+
+/-! ## processor helper -/
+
+theorem Proc.run_cons (p : Proc) (op : ProcOp) (ops : List ProcOp) : p.run (op :: ops) = ((p.consume op).1).run ops := rfl
+
+theorem consume_incoming (p : Proc) (op : ProcOp) (s : Signal) :
+    (p.consume op).1.incoming s = p.incoming s + (if op.sig = s then op.inp else 0) := by
+  by_cases h : s = op.sig
+  · subst h; cases ho : op.outcome <;> simp [Proc.consume, ho, add]
+  · have h' : ¬ op.sig = s := fun e => h e.symm
+    cases ho : op.outcome <;> simp [Proc.consume, ho, add, h, h']
+
+theorem consume_outgoing (p : Proc) (op : ProcOp) (s : Signal) :
+    (p.consume op).1.outgoing s = p.outgoing s + (if op.sig = s then op.outcome.out else 0) := by
+  by_cases h : s = op.sig
+  · subst h; cases ho : op.outcome <;> simp [Proc.consume, ho, add, ProcOutcome.out]
+  · have h' : ¬ op.sig = s := fun e => h e.symm
+    cases ho : op.outcome <;> simp [Proc.consume, ho, add, h, h']
+
+theorem consume_fwd (p : Proc) (op : ProcOp) (s : Signal) :
+    (p.consume op).1.fwdItems s = p.fwdItems s + (if op.sig = s then op.outcome.out else 0) := by
+  by_cases h : s = op.sig
+  · subst h; cases ho : op.outcome <;> simp [Proc.consume, ho, add, ProcOutcome.out]
+  · have h' : ¬ op.sig = s := fun e => h e.symm
+    cases ho : op.outcome <;> simp [Proc.consume, ho, add, h, h']
+
+theorem proc_run (p : Proc) (ops : List ProcOp) (s : Signal) :
+    (p.run ops).incoming s = p.incoming s + given s ops ∧
+    (p.run ops).outgoing s = p.outgoing s + forwardedBy s ops ∧
+    (p.run ops).fwdItems s = p.fwdItems s + forwardedBy s ops := by
+  induction ops generalizing p with
+  | nil => simp [Proc.run, given, forwardedBy, sumBy]
+  | cons op ops ih =>
+    rw [Proc.run_cons]
+    obtain ⟨h1, h2, h3⟩ := ih (p.consume op).1
+    rw [h1, h2, h3, consume_incoming, consume_outgoing, consume_fwd]
+    simp only [given, forwardedBy, sumBy]
+    omega
+
+/-- **every processor history, every signal**: incoming (attribute `otel.signal = s`) = the items the
+processor was given for `s`; outgoing = the items its next consumer actually received (the ledger
+`fwdItems`) = the sizes of the payloads the process function returned without error.  Payloads whose
+process function failed or asked to skip count as incoming and add nothing to outgoing. -/
+theorem C19_processor (ops : List ProcOp) (s : Signal) :
+    (Proc.run {} ops).incoming s = given s ops ∧
+    (Proc.run {} ops).outgoing s = (Proc.run {} ops).fwdItems s ∧
+    (Proc.run {} ops).outgoing s = forwardedBy s ops := by
+  obtain ⟨h1, h2, h3⟩ := proc_run {} ops s
+  simp only [Nat.zero_add] at h1 h2 h3
+  exact ⟨h1, by rw [h2, h3], h2⟩
+
+/-- what the caller gets back: the process function's error, nothing for a skip, otherwise the next consumer's result -/
+theorem C19_processor_ret (p : Proc) (op : ProcOp) :
+    (op.outcome = .err → (p.consume op).2 = .funcErr) ∧
+    (op.outcome = .skip → (p.consume op).2 = .nil) ∧
+    (∀ o e, op.outcome = .ok o e → (p.consume op).2 = (if e then .nextErr else .nil) ∧
+      (p.consume op).1.fwdCalls op.sig = p.fwdCalls op.sig + 1) := by
+  refine ⟨?_, ?_, ?_⟩
+  · intro h; simp [Proc.consume, h]
+  · intro h; simp [Proc.consume, h]
+  · intro o e h; simp [Proc.consume, h, add]
+
+example : let p := Proc.run {} [⟨.logs, 5, .ok 3 false⟩, ⟨.logs, 4, .err⟩, ⟨.metrics, 7, .skip⟩, ⟨.logs, 2, .ok 6 true⟩, ⟨.traces, 1, .ok 1 false⟩]
+    p.incoming .logs = 11 ∧ p.outgoing .logs = 9 ∧ p.fwdItems .logs = 9 ∧ p.incoming .metrics = 7 ∧ p.outgoing .metrics = 0 ∧
+    p.fwdCalls .logs = 2 ∧ p.outgoing .traces = 1 := by decide
+
+theorem procForeign_none {before : ProcSnap} {o : ProcObs} (h : procForeign before o = none) (t : Signal) (ht : t ≠ o.sig) :
+    o.after.incoming t = before.incoming t ∧ o.after.outgoing t = before.outgoing t := by
+  have := List.find?_eq_none.mp h t (Signal.mem_all t)
+  simpa [ht] using this
+
+/-- whatever observed trace (counter snapshots + the sink's ledger) `procCheck` accepts satisfies
+"incoming moved by the items given, outgoing by the items the next consumer received, nothing else moved" -/
+theorem C19_proc_check_sound (before : ProcSnap) (tr : List ProcObs) (h : procCheck before tr = true) : ProcTraceOK before tr := by
+  induction tr generalizing before with
+  | nil => trivial
+  | cons o rest ih =>
+    simp only [procCheck, procStepB, Bool.and_eq_true, Option.isNone_iff_eq_none] at h
+    obtain ⟨⟨⟨hi, ho⟩, hf⟩, hr⟩ := h
+    refine ⟨⟨?_, ?_, fun t ht => procForeign_none hf t ht⟩, ih _ hr⟩
+    · simpa [procIncomingB] using hi
+    · simpa [procOutgoingB] using ho
+
+/-- the model's own observations pass the oracle, for every history -/
+theorem C19_proc_model_checks (p : Proc) (ops : List ProcOp) : ProcTraceOK p.snap (p.obsTrace ops) := by
+  induction ops generalizing p with
+  | nil => trivial
+  | cons op ops ih =>
+    refine ⟨⟨?_, ?_, ?_⟩, ih _⟩
+    · simp [Proc.snap, consume_incoming]
+    · cases ho : op.outcome <;> simp [Proc.snap, consume_outgoing, ho, ProcOutcome.out]
+    · intro t ht
+      have ht' : ¬ op.sig = t := fun e => ht e.symm
+      simp [Proc.snap, consume_incoming, consume_outgoing, ht']
+
+example : procCheck {} (Proc.obsTrace {} [⟨.logs, 5, .ok 3 false⟩, ⟨.logs, 4, .err⟩, ⟨.metrics, 7, .skip⟩]) = true := by decide
+/-- outgoing recorded as 5 while the next consumer received 3 is rejected -/
+example : procCheck {} [{ sig := .logs, inp := 5, sink := some 3, after := { incoming := add (fun _ => 0) .logs 5, outgoing := add (fun _ => 0) .logs 5 } }] = false := by decide
+
+-- === exporter clause (added separately below) ===
+
+/-! ## exporter: sent + send-failed (+ enqueue-failed) against what was given, over the shutdown LTS of property C03
+
+All theorems are about every reachable state of `C03.fire` (every interleaving, configuration, re-partition, backend outcome).
+A refused `Offer` does not change the LTS state; its items go to *enqueue-failed* and to *given* alike, so they cancel in the
+balance and do not appear below: `given − enqueueFailed = accepted.length`. -/
+
+open OtelVerif.C03 in
+theorem flights_sum_split (fs : List Flight) (hd : ∀ fl ∈ fs, fl.st = .done) :
+    (fs.map (fun fl => fl.batch.length)).sum =
+      ((fs.filter (fun fl => fl.st == .done && Flight.finalOk fl)).map (fun fl => fl.batch.length)).sum +
+      ((fs.filter (fun fl => fl.st == .done && !Flight.finalOk fl)).map (fun fl => fl.batch.length)).sum := by
+  induction fs with
+  | nil => rfl
+  | cons fl fs ih =>
+    have h1 := hd fl List.mem_cons_self
+    have ih' := ih (fun g hg => hd g (List.mem_cons_of_mem _ hg))
+    cases hk : Flight.finalOk fl <;> simp only [List.filter_cons, h1, hk, beq_self_eq_true, Bool.and_true, Bool.and_false,
+      Bool.not_true, Bool.not_false, if_true, Bool.false_eq_true, if_false, List.map_cons, List.sum_cons] <;> omega
+
+open OtelVerif.C03 in
+theorem flights_length_split (fs : List Flight) (hd : ∀ fl ∈ fs, fl.st = .done) :
+    (flightItems fs).length =
+      ((fs.filter (fun fl => fl.st == .done && Flight.finalOk fl)).map (fun fl => fl.batch.length)).sum +
+      ((fs.filter (fun fl => fl.st == .done && !Flight.finalOk fl)).map (fun fl => fl.batch.length)).sum := by
+  rw [← flights_sum_split fs hd]
+  simp [flightItems, List.length_flatMap]
+
+open OtelVerif.C03 in
+/-- **Counted exactly once.** When shutdown has returned, every accepted item has been added exactly once to *sent* or to
+*send-failed*, or still sits in the queue (never dispatched): batching, splitting and retries neither drop nor double count. -/
+theorem C19_exporter_once {s : State} (h : Reachable s) (hp : s.phase = 5) :
+    sentOf s + failedOf s + (queueItems s.queue).length = s.accepted.length := by
+  have inv := inv_reachable h
+  obtain ⟨hall, hcur, hhand, htimer, hdone, _⟩ := C03_quiet h hp
+  have hperm : s.accepted.Perm (places s) := List.perm_iff_count.mpr inv.conserved
+  have hlen := hperm.length_eq
+  have hsplit := flights_length_split s.flights hdone
+  simp only [places, all_exited_items hall, hcur, hhand, htimer, optItems, TSt.items, List.length_append, List.length_nil] at hlen
+  simp only [sentOf, failedOf]
+  omega
+
+open OtelVerif.C03 in
+/-- **Memory queue balance.** sent + send-failed = accepted − (requests enqueued after the shutdown request that nobody reads any
+more); every item accepted before the shutdown request is counted. -/
+theorem C19_exporter_balance_memory {s : State} (h : Reachable s) (hp : s.phase = 5) (hm : s.cfg.persistent = false) (hn : s.cons ≠ []) :
+    sentOf s + failedOf s = s.accepted.length - (queueItems s.queue).length ∧ ∀ p ∈ s.queue, p.2 = true := by
+  have inv := inv_reachable h
+  have hall := (C03_quiet h hp).1
+  have hex : ∃ c ∈ s.cons, c = .exited := by
+    cases hc : s.cons with
+    | nil => exact absurd hc hn
+    | cons c cs => exact ⟨c, by simp, hall c (by simp [hc])⟩
+  have := C19_exporter_once h hp
+  exact ⟨by omega, (inv.late hm hex).2⟩
+
+open OtelVerif.C03 in
+/-- the statement's exporter clause for a persistent queue: sent + send-failed = given − enqueue-failed − stored -/
+def C19_exporter_balance_full : Prop :=
+  ∀ s : State, Reachable s → s.phase = 5 → s.cfg.persistent = true → sentOf s + failedOf s + storedOf s = s.accepted.length
+
+open OtelVerif.C03 in
+/-- what the code does instead: the requests whose retry was interrupted by the shutdown are counted send-failed AND stay stored -/
+theorem C19_exporter_double_count {s : State} (h : Reachable s) (hp : s.phase = 5) :
+    sentOf s + failedOf s + storedOf s = s.accepted.length + keptOf s := by
+  have := C19_exporter_once h hp
+  simp only [storedOf]; omega
+
+open OtelVerif.C03 in
+/-- proved part: histories in which no retry was interrupted by the shutdown (no flight ended with a shutdown error) balance -/
+theorem C19_exporter_balance_partial {s : State} (h : Reachable s) (hp : s.phase = 5) (hk : keptOf s = 0) :
+    sentOf s + failedOf s + storedOf s = s.accepted.length := by
+  have := C19_exporter_double_count h hp; omega
+
+open OtelVerif.C03 in
+/-- the full statement fails for the code as it is: persistent queue, retry enabled, shutdown during the back-off of request `[1]`
+(`C03.demoPersistent`): given 3, sent 1, send-failed 1, stored 2 (`[1]` kept, `[3]` never dispatched) — 1 + 1 + 2 ≠ 3 -/
+theorem C19_exporter_balance_full_fails : ¬ C19_exporter_balance_full := by
+  intro hfull
+  cases hd : runFrom (init ⟨true, false, true⟩ 2 0 false) demoPersistent with
+  | none =>
+    have : (runFrom (init ⟨true, false, true⟩ 2 0 false) demoPersistent).isSome = true := by decide
+    simp [hd] at this
+  | some s =>
+    have hr : Reachable s := reachable_of_runFrom demoPersistent (Reachable.init _ _ _ _) hd
+    have hv : (runFrom (init ⟨true, false, true⟩ 2 0 false) demoPersistent).map
+        (fun s => (s.phase, s.cfg.persistent, sentOf s, failedOf s, storedOf s, s.accepted.length)) = some (5, true, 1, 1, 2, 3) := by decide
+    rw [hd] at hv
+    simp only [Option.map_some, Option.some.injEq, Prod.mk.injEq] at hv
+    obtain ⟨h1, h2, h3, h4, h5, h6⟩ := hv
+    have := hfull s hr h1 h2
+    omega
+
+/-- **Queue size gauge.** The memory queue's `size` after any sequence of `add`/`onDone` is what was added minus what was
+finished; `obs_queue.go` observes exactly `Size()` and `Capacity()`. -/
+theorem C19_gauge_size (size : Int) (es : List QEv) : qSizeAfter size es = size + added es - finished es := by
+  induction es generalizing size with
+  | nil => simp [qSizeAfter, added, finished]
+  | cons e es ih =>
+    cases e with
+    | add n => simp only [qSizeAfter, added, finished, ih]; omega
+    | done n => simp only [qSizeAfter, added, finished, ih]; omega
+
+/-- non-vacuity of the trace predictor: a retried flight counts once, by its last call; a refused send counts as enqueue-failed -/
+example : predict [.acc [1, 2], .es 0 [1, 2], .ee 0 true, .es 1 [1, 2], .ee 1 false, .rej [7, 8, 9], .acc [3], .es 2 [3], .ee 2 true] =
+    { sent := 2, failed := 1, enqFailed := 3 } := by decide
+
+/-- items handed to `Send` in a recorded trace -/
+def givenOf (t : List XEv) : Nat := (t.map (fun e => match e with | .acc is => is.length | .rej is => is.length | _ => 0)).sum
+
+/-- the exporter clause read on a trace in which nothing stays queued or stored -/
+def C19_exporter_trace_balance_full : Prop :=
+  ∀ t : List XEv, (predict t).sent + (predict t).failed + (predict t).enqFailed = givenOf t
+
+/-- the code as it is violates it with `wait_for_result` (also the legacy batcher without a queue): the export error comes back
+through `Offer`, so `obsQueue` adds the items to enqueue-failed after `obsReportSender` added them to send-failed
+(trace recorded from the real exporter, corpus case 1 of the exporter harness: 4 items fail permanently, 3 are sent) -/
+theorem C19_exporter_trace_balance_full_fails : ¬ C19_exporter_trace_balance_full := by
+  intro h
+  have := h [.es 0 [100, 101, 102, 103], .ee 0 true, .rej [100, 101, 102, 103], .es 1 [200, 201, 202], .ee 1 false, .acc [200, 201, 202]]
+  revert this; decide
+
 end OtelVerif.C19
